@@ -884,6 +884,14 @@ func (c *Ctx) lexPaths(lr *LexRoles, fn *ssa.Function, max int) ([]*Path, bool) 
 }
 
 func (c *Ctx) cyclePathsOpt(fn *ssa.Function, o *InlineOpts) ([]cyclePath, bool) {
+	// a cycle stands for an arbitrary iteration: values carried round the loop are unknown
+	if o == nil {
+		o = &InlineOpts{None: true, Havoc: true}
+	} else {
+		oc := *o
+		oc.Havoc = true
+		o = &oc
+	}
 	paths, complete := c.enumPathsOpt(fn, 5000, o)
 	var out []cyclePath
 	for _, p := range paths {
